@@ -31,7 +31,7 @@ def run(ctx):
     check_tag_table(ctx, P)
     # 2. arm purity on all dispatch sites
     n_sites, n_arms = check_arm_purity(ctx, "E2-A", P)
-    ctx.floor("E2-A", "scheme dispatch switches", n_sites, 60)
+    ctx.floor("E2-A", "scheme dispatch switches", n_sites, 40)
     # 3. control dependence
     n = check_tag_control_dependence(ctx, "E2-B", P)
     ctx.floor("E2-B", "scheme items outside the scheme traits", n, 40)
